@@ -63,6 +63,10 @@ DEBUG_DEFAULT = False
 # ... and asyncio's debug mode (what PYTHONASYNCIODEBUG=1 / -X dev give an application) for
 # every eleventh case.
 LOOP_DEBUG_DEFAULT = False
+# ... and, in every third case, another part of the application reads every public attribute
+# of the client object each time a frame reaches the simulated console (getters must be free of
+# side effects whenever they are called).
+POLL_DEFAULT = False
 
 
 def attach_log(log, debug=False):
